@@ -352,7 +352,13 @@ def run(repo: Repo, rep: Report, tier: str) -> None:
                 elif amp in (I, D) and py in (I, D, M):
                     rep.violation("HARD-NEAREST", fi, construct, f"decided bit is {py} in the received amplitude but the modulator's amplitude is {amp} in the bit: the decision is the complement of the nearest point's label", node=r)
                 else:
-                    rep.undecided("HARD-NEAREST", fi, construct, f"modulator polarity {amp}, decision polarity {py}", node=r)
+                    from .c15 import hard_nearest_tabulated
+
+                    st_, d_ = hard_nearest_tabulated(repo, ci, fi)
+                    if st_ is None:
+                        rep.undecided("HARD-NEAREST", fi, construct, f"modulator polarity {amp}, decision polarity {py}; tabulation: {d_}", node=r)
+                    else:
+                        rep.add("HARD-NEAREST", fi, construct, st_, d_, node=r)
 
         # ---------------- HARD-SOFT agreement
         soft_reads = branch_attr_reads(fi, ci, SOFT_ATOMS, repo)
